@@ -39,6 +39,7 @@ pub fn run_c20(args: &Args) -> i32 {
       acc.count("async_stayed_pending", 1);
     }
     acc.count("boundary_acks_last_or_last_plus_1", out.boundary_acks);
+    acc.count("async_polls_without_wake_that_replaced_the_waker", out.spurious_polls);
     let has_rel = case.pre.iter().any(|e| matches!(e, wfa::FEv::Match { reliable: true, .. }));
     if has_rel {
       acc.distinct.insert(out.sig);
@@ -72,5 +73,6 @@ pub fn run_c20(args: &Args) -> i32 {
   rep.require("sync_completed_true", 100);
   rep.require("sync_timed_out", 50);
   rep.require("boundary_acks_last_or_last_plus_1", 100);
+  rep.require("async_polls_without_wake_that_replaced_the_waker", 50);
   rep.finish(acc)
 }
